@@ -13,7 +13,11 @@ SHORT = ["message", "header", "section", "no-roots", "root-missing", "not-a-mess
 SIDE = {1: "the implementation returned a message and the model says error",
         2: "the implementation returned an error and the model says message",
         3: "root link differs", 4: "Invocations() differ", 5: "Receipts() differ",
-        6: "Get(link) results differ", 7: "Blocks() differ (block table: first occurrence wins, order)"}
+        6: "Get(link) results differ", 7: "Blocks() differ (block table: first occurrence wins, order)",
+        8: "a receipt named by the report reads differently through receipt.NewReceipt than ReceiptBytes.read_receipt says "
+           "(error vs receipt, ran, ok/error side, signature bytes, issuer, fork, join, proofs)"}
+RCLASS = ["receipt", "root-block-missing", "not-a-receipt (dag-cbor or schema)", "link-not-dag-cbor-sha256-of-the-bytes",
+          "result-has-neither-side", "repeated-struct-key (outside the modelled domain, skipped)"]
 HANDLE = {1: "server.Request did not answer 400 (or ran a handler) although the model says the body is undecodable",
           2: "server.Request answered 400 although the model decodes the body to a message"}
 
@@ -24,10 +28,10 @@ def _what(code):
     parts, keys = [], []
     if rs:
         parts.append("client.Execute / response.Decode: " + SIDE.get(rs, str(rs)))
-        keys.append("response-" + {1: "accepted", 2: "refused", 3: "root", 4: "invocations", 5: "receipts", 6: "get", 7: "blocks"}.get(rs, str(rs)))
+        keys.append("response-" + {1: "accepted", 2: "refused", 3: "root", 4: "invocations", 5: "receipts", 6: "get", 7: "blocks", 8: "receipt-read"}.get(rs, str(rs)))
     if rq:
         parts.append("request.Decode: " + SIDE.get(rq, str(rq)))
-        keys.append("request-" + {1: "accepted", 2: "refused", 3: "root", 4: "invocations", 5: "receipts", 6: "get", 7: "blocks"}.get(rq, str(rq)))
+        keys.append("request-" + {1: "accepted", 2: "refused", 3: "root", 4: "invocations", 5: "receipts", 6: "get", 7: "blocks", 8: "receipt-read"}.get(rq, str(rq)))
     if h:
         parts.append(HANDLE.get(h, str(h)))
         keys.append("handle-" + {1: "undecodable-not-400", 2: "decodable-400"}.get(h, str(h)))
@@ -52,6 +56,7 @@ def evaluate(run, wd, prefix, what):
     res = vlib.run_case_files(files)
     ok, nbad = True, 0
     hist = [0] * 8
+    rhist = [0] * 6
     model_class = {}
     for m in idx["files"]:
         f = os.path.join(wd, m["file"])
@@ -63,6 +68,8 @@ def evaluate(run, wd, prefix, what):
         s = vlib.parse_nlist(vlib.parse_print(log, "S")) or []
         for k, n in enumerate(s[:8]):
             hist[k] += n
+        for k, n in enumerate((vlib.parse_nlist(vlib.parse_print(log, "RH")) or [])[:6]):
+            rhist[k] += n
         v = vlib.parse_nlist(vlib.parse_print(log, "V")) or []
         for k, cls in enumerate(v):
             if k < len(m["cases"]):
@@ -84,13 +91,15 @@ def evaluate(run, wd, prefix, what):
                                model=CLASSES[cls] if cls is not None and cls < 8 else None, code=code, case_file=f,
                                how="work/bin/harness bytes-one <body_hex> <outdir> %d %d  writes <outdir>/replay_case_00.v; coqc -Q coq Ucanto prints M (disagreement), V (model verdict)" % (c["status"], run.seed)))
     run.obligation("bytes-model: decode_message / client_execute_bytes (coq/MessageBytes.v) = implementation on every body (%s): "
-                   "error vs message, root link, Invocations, Receipts, Get of the lookup links, block table" % what, ok,
+                   "error vs message, root link, Invocations, Receipts, Get of the lookup links, block table, and every receipt the report "
+                   "names read through receipt.NewReceipt = ReceiptBytes.read_receipt (%d reads: %s)" % (what, sum(rhist), ", ".join("%s %d" % (RCLASS[k].split(" ")[0], rhist[k]) for k in range(6))), ok,
                    "%d disagreement(s)" % nbad)
     if not ok and not any(k.startswith("bytes-model") for k, _, _, _ in run.violations):
         run.violation("bytes-model:broken", "byte-level case files could not be evaluated", dict(notes=run.notes[-3:]), no_input=True)
     by_kind = idx.get("by_kind") or {}
     stats = dict(bodies=len(cases), model_verdicts={SHORT[k]: hist[k] for k in range(8)}, implementation_verdicts=idx.get("impl_classes"),
-                 by_kind={k: by_kind[k] for k in sorted(by_kind)}, disagreements=nbad)
+                 by_kind={k: by_kind[k] for k in sorted(by_kind)}, disagreements=nbad,
+                 receipt_reads_model_verdicts={RCLASS[k]: rhist[k] for k in range(6)})
     return stats
 
 
